@@ -20,6 +20,28 @@ func VerifC37Pool(sm module.ServiceManager, g module.TransactionGroup) *Transact
 	return sm.(*manager).tm.getTxPool(g)
 }
 
+// VerifC37TIM returns the TXIDManager the pools of the service manager share.
+func VerifC37TIM(sm module.ServiceManager) TXIDManager {
+	return sm.(*manager).tim
+}
+
+// VerifC37SwapPool installs tp as the pool of group g and returns the previous one
+// (the harness computes the block of ANOTHER proposer with a second real pool
+// over the same TXIDManager and then puts the node's own pool back).
+func VerifC37SwapPool(sm module.ServiceManager, g module.TransactionGroup, tp *TransactionPool) *TransactionPool {
+	tm := sm.(*manager).tm
+	tm.lock.Lock()
+	defer tm.lock.Unlock()
+	var old *TransactionPool
+	switch g {
+	case module.TransactionGroupPatch:
+		old, tm.patchTxPool = tm.patchTxPool, tp
+	default:
+		old, tm.normalTxPool = tm.normalTxPool, tp
+	}
+	return old
+}
+
 // VerifC37LocatorManager returns the locator manager the service manager uses.
 func VerifC37LocatorManager(sm module.ServiceManager) module.LocatorManager {
 	return sm.(*manager).lm
